@@ -1078,13 +1078,16 @@ class OmniParser(PVLParser):
                 (last_token, v) = getattr(self, "_simple_value", (None, None))
                 if v is not last_v:
                     # Not known where the value came from.
-                    last_token = Token(
-                        last_v, grammar=self.grammar, decoder=self.decoder
-                    )
+                    last_token = None
+                    if type(last_v) is str and len(last_v) > 0:
+                        last_token = Token(
+                            last_v, grammar=self.grammar, decoder=self.decoder
+                        )
+                # A bare word is a str, but TRUE, FALSE and NULL are bare
+                # words, too, and can be Parameter Names.
                 if (
                     last_token is not None
-                    and type(last_v) is str
-                    and len(last_v) > 0
+                    and len(last_token) > 0
                     and last_token.is_parameter_name()
                 ):
                     # Fix the previous entry
